@@ -447,7 +447,8 @@ class Array(Environment):
         # Link cells to colspec
         if self.colspec:
             for r, row in enumerate(self):
-                for c, cell in enumerate(row):
+                c = 0
+                for cell in row:
                     colspan = cell.attributes.get('colspan', 0)
                     if colspan > 1:
                         try:
@@ -458,6 +459,7 @@ class Array(Environment):
                                 del cell.colspecStart
                             if hasattr(cell, 'colspecEnd'):
                                 del cell.colspecEnd
+                    c += cell.attributes.get('colspan', 1)
 
         # Determine the number of rows by counting cells
         if self:
